@@ -1,13 +1,784 @@
-//! C19 — not yet implemented
-use crate::core::{Ctx, Outcome};
-use serde_json::Value;
+//! C19 — Cancel-orders and close-positions commands act on exactly the filtered scope.
+//!
+//! Exhaustive configuration sweep (E-SEQ style, prefix sharing): engine state x filter x command
+//! sequence, every command executed by the real `Engine::process(EngineEvent::Command(..))` with
+//! recording execution links.
+//!
+//! * World: 4 instruments, 2 exchanges, 3 underlyings: exchange 0 lists `a` btc/usdt, `b` btc/usdt (same
+//!   underlying twice), `c` btc/usd (same base, other quote); exchange 1 lists `d` btc/usdt (same
+//!   names, other exchange => other asset indices => another underlying).
+//! * Engine states are REACHED by feeding events to a real engine (trading disabled, healthy links):
+//!   `SendOpenRequests` (in flight), order snapshots (open / partially filled), `SendCancelRequests`
+//!   (cancel in flight with / without confirmed open data), account trades (long 2 = buy 3, sell 1;
+//!   short 3 = sell 4, buy 1 - so `quantity_abs != quantity_abs_max`), market trades (price known).
+//!   Per instrument: orders = any subset of {in-flight, open, partially-filled, cancel-in-flight(Some),
+//!   cancel-in-flight(None)} x position {none, long 2, short 3} x price {unknown, known}.
+//! * Filters: `None`; every subset of exchanges, of instruments, of the three underlyings (also the
+//!   empty subset, single elements both as `One` and as `Many`), plus decoys that match nothing
+//!   (unknown exchange / instrument index, every ordered pair of asset indices that is not an
+//!   underlying: swapped base/quote, base of one exchange with quote of the other, ...).
+//! * Commands: `CancelOrders(f)`, `ClosePositions(f)`, each followed by `CancelOrders(f)`,
+//!   `ClosePositions(f)` or `CancelOrders(None)` (repetition while the first is in flight).
+//!
+//! Oracle (reference model built from the configuration menu - definition level, never from the
+//! engine's own filter code):
+//!  * `CancelOrders(f)`  => the requests found in the link logs are exactly: one cancel per tracked order
+//!    of a matching instrument that is not already cancelling, on the link of that instrument's
+//!    exchange, carrying the client order id and `id == Some(exchange id)` iff the reference knows one;
+//!  * `ClosePositions(f)` => exactly one open per matching instrument with position and price, on that
+//!    instrument's link, opposite side, `quantity == |position|`; nothing for position-less,
+//!    price-less or non-matching instruments; no cancels;
+//!  * whole `InstrumentState` of every non-matching instrument is bit-identical before / after;
+//!  * a repeated cancel requests nothing that is already cancel-in-flight (the reference marks what
+//!    the first command requested, independently of what the engine recorded).
 
-pub fn run(_ctx: &Ctx) -> Outcome {
-    eprintln!("MACHINERY: C19 not implemented");
-    std::process::exit(2)
+use super::c03::{fresh_state, mk_engine};
+use super::common::*;
+use crate::core::{Ctx, Distinct, Outcome, Samples, hash_of};
+use barter::{
+    EngineEvent,
+    engine::{
+        Processor,
+        command::Command,
+        state::{
+            instrument::{data::InstrumentDataState, filter::InstrumentFilter},
+            trading::TradingState,
+        },
+    },
+    execution::{AccountStreamEvent, request::ExecutionRequest},
+};
+use barter_data::{
+    event::{DataKind, MarketEvent},
+    streams::consumer::MarketStreamEvent,
+    subscription::trade::PublicTrade,
+};
+use barter_execution::{
+    AccountEvent, AccountEventKind,
+    order::{
+        Order, OrderKey, OrderKind, TimeInForce,
+        id::{ClientOrderId, OrderId},
+        request::{OrderRequestCancel, OrderRequestOpen, RequestCancel, RequestOpen},
+        state::{ActiveOrderState, Open, OrderState},
+    },
+    trade::{AssetFees, Trade, TradeId},
+};
+use barter_instrument::{
+    Side, Underlying,
+    asset::AssetIndex,
+    exchange::ExchangeIndex,
+    index::IndexedInstruments,
+    instrument::InstrumentIndex,
+};
+use barter_integration::{collection::one_or_many::OneOrMany, snapshot::Snapshot};
+use rayon::prelude::*;
+use rust_decimal::Decimal;
+use serde::{Deserialize, Serialize};
+use serde_json::{Value, json};
+use std::{
+    collections::BTreeMap,
+    panic::{AssertUnwindSafe, catch_unwind},
+    sync::atomic::{AtomicU64, Ordering},
+};
+
+type Viol = (String, String);
+
+/// per-instrument configuration: order-kind bit mask, position (0 none, 1 long 2, 2 short 3), price known
+#[derive(Debug, Clone, Copy, PartialEq, Eq, Hash, Serialize, Deserialize)]
+pub struct IC {
+    orders: u8,
+    pos: u8,
+    price: bool,
+}
+const KINDS: [&str; 5] = ["nf", "op", "pf", "cs", "cn"]; // in-flight, open, partially filled, cancelling(Some), cancelling(None)
+
+/// filter specification; the bool forces `OneOrMany::Many` even for one element
+#[derive(Debug, Clone, PartialEq, Eq, Hash, Serialize, Deserialize)]
+pub enum FSpec {
+    None,
+    Ex(Vec<usize>, bool),
+    Ins(Vec<usize>, bool),
+    Und(Vec<(usize, usize)>, bool),
+}
+impl FSpec {
+    fn kind(&self) -> &'static str {
+        match self {
+            FSpec::None => "filter-none",
+            FSpec::Ex(..) => "by-exchange",
+            FSpec::Ins(..) => "by-instrument",
+            FSpec::Und(..) => "by-underlying",
+        }
+    }
 }
 
-pub fn replay(_ctx: &Ctx, _case: &Value) {
-    eprintln!("MACHINERY: C19 not implemented");
-    std::process::exit(2)
+#[derive(Debug, Clone, Copy, PartialEq, Eq, Hash, Serialize, Deserialize)]
+pub enum Cmd {
+    /// CancelOrders(filter)
+    Cancel,
+    /// ClosePositions(filter)
+    Close,
+    /// CancelOrders(InstrumentFilter::None)
+    CancelAll,
+}
+
+fn one_or_many<T>(mut v: Vec<T>, many: bool) -> OneOrMany<T> {
+    if v.len() == 1 && !many { OneOrMany::One(v.pop().unwrap()) } else { OneOrMany::Many(v) }
+}
+
+pub struct W {
+    instruments: IndexedInstruments,
+    n_ins: usize,
+    n_ex: usize,
+    ex_of: Vec<usize>,
+    und_of: Vec<(usize, usize)>,
+    n_assets: usize,
+}
+
+impl W {
+    pub fn new() -> Self {
+        let instruments = IndexedInstruments::builder()
+            .add_instrument(spot(EXCHANGES[0], "a", "A", "btc", "usdt"))
+            .add_instrument(spot(EXCHANGES[0], "b", "B", "btc", "usdt"))
+            .add_instrument(spot(EXCHANGES[0], "c", "C", "btc", "usd"))
+            .add_instrument(spot(EXCHANGES[1], "d", "D", "btc", "usdt"))
+            .build();
+        let ex_of: Vec<usize> = instruments.instruments().iter().map(|i| i.value.exchange.key.index()).collect();
+        let und_of: Vec<(usize, usize)> = instruments
+            .instruments()
+            .iter()
+            .map(|i| (i.value.underlying.base.index(), i.value.underlying.quote.index()))
+            .collect();
+        assert_eq!(ex_of, vec![0, 0, 0, 1], "instrument layout");
+        assert_eq!(und_of[0], und_of[1]);
+        assert!(und_of[0] != und_of[2] && und_of[0].0 == und_of[2].0 && und_of[0] != und_of[3]);
+        Self { n_ins: 4, n_ex: 2, n_assets: instruments.assets().len(), instruments, ex_of, und_of }
+    }
+
+    fn filter(&self, f: &FSpec) -> InstrumentFilter {
+        match f {
+            FSpec::None => InstrumentFilter::None,
+            FSpec::Ex(v, m) => InstrumentFilter::Exchanges(one_or_many(v.iter().map(|e| ExchangeIndex(*e)).collect(), *m)),
+            FSpec::Ins(v, m) => InstrumentFilter::Instruments(one_or_many(v.iter().map(|i| InstrumentIndex(*i)).collect(), *m)),
+            FSpec::Und(v, m) => InstrumentFilter::Underlyings(one_or_many(
+                v.iter().map(|(b, q)| Underlying { base: AssetIndex(*b), quote: AssetIndex(*q) }).collect(),
+                *m,
+            )),
+        }
+    }
+
+    /// definition-level predicate: does instrument `i` fall in the scope of `f`?
+    fn matches(&self, f: &FSpec, i: usize) -> bool {
+        match f {
+            FSpec::None => true,
+            FSpec::Ex(v, _) => v.contains(&self.ex_of[i]),
+            FSpec::Ins(v, _) => v.contains(&i),
+            FSpec::Und(v, _) => v.contains(&self.und_of[i]),
+        }
+    }
+
+    /// all filters of the sweep
+    fn filters(&self) -> Vec<FSpec> {
+        let mut v = vec![FSpec::None];
+        let subsets = |n: usize| -> Vec<Vec<usize>> {
+            (1u32..(1 << n)).map(|m| (0..n).filter(|i| m & (1 << i) != 0).collect()).collect()
+        };
+        // exchanges
+        for s in subsets(self.n_ex) {
+            v.push(FSpec::Ex(s, false));
+        }
+        v.push(FSpec::Ex(vec![0], true));
+        v.push(FSpec::Ex(vec![1], true));
+        v.push(FSpec::Ex(vec![], true));
+        v.push(FSpec::Ex(vec![2], false)); // unknown exchange index
+        v.push(FSpec::Ex(vec![3, 1], false)); // unknown (== an instrument index) + real
+        // instruments
+        for s in subsets(self.n_ins) {
+            v.push(FSpec::Ins(s, false));
+        }
+        v.push(FSpec::Ins(vec![1], true));
+        v.push(FSpec::Ins(vec![], true));
+        v.push(FSpec::Ins(vec![7], false));
+        v.push(FSpec::Ins(vec![3, 0], false));
+        // underlyings: the three real ones, all subsets
+        let real = [self.und_of[0], self.und_of[2], self.und_of[3]];
+        for s in subsets(3) {
+            v.push(FSpec::Und(s.iter().map(|k| real[*k]).collect(), false));
+        }
+        v.push(FSpec::Und(vec![real[2]], true));
+        v.push(FSpec::Und(vec![], true));
+        // decoys: every ordered pair of asset indices that is no underlying
+        for b in 0..self.n_assets {
+            for q in 0..self.n_assets {
+                if b != q && !real.contains(&(b, q)) {
+                    v.push(FSpec::Und(vec![(b, q)], false));
+                }
+            }
+        }
+        v.push(FSpec::Und(vec![(real[0].1, real[0].0), real[1]], false)); // swapped decoy + real
+        v
+    }
+}
+
+// ------------------------------------------------------------------------------------------------
+// reference model
+// ------------------------------------------------------------------------------------------------
+
+#[derive(Debug, Clone, PartialEq, Eq, Hash)]
+enum RS {
+    InFlight,
+    Open(String),
+    Cancelling,
+}
+#[derive(Debug, Clone, PartialEq, Eq, Hash)]
+struct RefIns {
+    orders: BTreeMap<String, RS>,
+    pos: Option<(bool /*long*/, u32)>,
+    price: bool,
+}
+
+fn ref_of(cfg: &[IC]) -> Vec<RefIns> {
+    cfg.iter()
+        .enumerate()
+        .map(|(i, c)| {
+            let mut orders = BTreeMap::new();
+            for (k, name) in KINDS.iter().enumerate() {
+                if c.orders & (1 << k) != 0 {
+                    let cid = format!("{i}{name}");
+                    let st = match k {
+                        0 => RS::InFlight,
+                        1 | 2 => RS::Open(format!("x-{cid}")),
+                        _ => RS::Cancelling,
+                    };
+                    orders.insert(cid, st);
+                }
+            }
+            RefIns { orders, pos: match c.pos { 1 => Some((true, 2)), 2 => Some((false, 3)), _ => None }, price: c.price }
+        })
+        .collect()
+}
+
+// ------------------------------------------------------------------------------------------------
+// driving the real engine
+// ------------------------------------------------------------------------------------------------
+
+fn key(w: &W, i: usize, cid: &str) -> OrderKey<ExchangeIndex, InstrumentIndex> {
+    OrderKey { exchange: ExchangeIndex(w.ex_of[i]), instrument: InstrumentIndex(i), strategy: strategy_id(), cid: ClientOrderId::new(cid) }
+}
+const GTC: TimeInForce = TimeInForce::GoodUntilCancelled { post_only: false };
+
+fn ev_open(w: &W, i: usize, cid: &str) -> Event {
+    EngineEvent::Command(Command::SendOpenRequests(OneOrMany::One(OrderRequestOpen {
+        key: key(w, i, cid),
+        state: RequestOpen { side: Side::Buy, price: Decimal::from(100), quantity: Decimal::from(2), kind: OrderKind::Limit, time_in_force: GTC },
+    })))
+}
+fn ev_snap_open(w: &W, i: usize, cid: &str, filled: u32) -> Event {
+    EngineEvent::Account(AccountStreamEvent::Item(AccountEvent {
+        exchange: ExchangeIndex(w.ex_of[i]),
+        kind: AccountEventKind::OrderSnapshot(Snapshot(Order {
+            key: key(w, i, cid),
+            side: Side::Buy,
+            price: Decimal::from(100),
+            quantity: Decimal::from(2),
+            kind: OrderKind::Limit,
+            time_in_force: GTC,
+            state: OrderState::active(Open { id: OrderId::new(format!("x-{cid}")), time_exchange: t_plus(1), filled_quantity: Decimal::from(filled) }),
+        })),
+    }))
+}
+fn ev_cancel(w: &W, i: usize, cid: &str, id: Option<String>) -> Event {
+    EngineEvent::Command(Command::SendCancelRequests(OneOrMany::One(OrderRequestCancel {
+        key: key(w, i, cid),
+        state: RequestCancel { id: id.map(OrderId::new) },
+    })))
+}
+fn ev_trade(w: &W, i: usize, n: u32, side: Side, qty: u32) -> Event {
+    EngineEvent::Account(AccountStreamEvent::Item(AccountEvent {
+        exchange: ExchangeIndex(w.ex_of[i]),
+        kind: AccountEventKind::Trade(Trade {
+            id: TradeId::new(format!("t{i}-{n}")),
+            order_id: OrderId::new("ot"),
+            instrument: InstrumentIndex(i),
+            strategy: strategy_id(),
+            time_exchange: t_plus(n as i64),
+            side,
+            price: Decimal::from(100),
+            quantity: Decimal::from(qty),
+            fees: AssetFees::quote_fees(Decimal::ZERO),
+        }),
+    }))
+}
+fn ev_market(w: &W, i: usize) -> Event {
+    EngineEvent::Market(MarketStreamEvent::Item(MarketEvent {
+        time_exchange: t_plus(1),
+        time_received: t_plus(1),
+        exchange: w.instruments.exchanges()[w.ex_of[i]].value,
+        instrument: InstrumentIndex(i),
+        kind: DataKind::Trade(PublicTrade { id: "1".into(), price: 100.0 + i as f64, amount: 1.0, side: Side::Buy }),
+    }))
+}
+
+/// the event script that reaches configuration `cfg`
+fn script(w: &W, cfg: &[IC]) -> Vec<Event> {
+    let mut evs = Vec::new();
+    for (i, c) in cfg.iter().enumerate() {
+        for (k, name) in KINDS.iter().enumerate() {
+            if c.orders & (1 << k) == 0 {
+                continue;
+            }
+            let cid = format!("{i}{name}");
+            evs.push(ev_open(w, i, &cid));
+            match k {
+                1 => evs.push(ev_snap_open(w, i, &cid, 0)),
+                2 => evs.push(ev_snap_open(w, i, &cid, 1)),
+                3 => {
+                    evs.push(ev_snap_open(w, i, &cid, 0));
+                    evs.push(ev_cancel(w, i, &cid, Some(format!("x-{cid}"))));
+                }
+                4 => evs.push(ev_cancel(w, i, &cid, None)),
+                _ => {}
+            }
+        }
+        match c.pos {
+            1 => {
+                evs.push(ev_trade(w, i, 1, Side::Buy, 3));
+                evs.push(ev_trade(w, i, 2, Side::Sell, 1));
+            }
+            2 => {
+                evs.push(ev_trade(w, i, 1, Side::Sell, 4));
+                evs.push(ev_trade(w, i, 2, Side::Buy, 1));
+            }
+            _ => {}
+        }
+        if c.price {
+            evs.push(ev_market(w, i));
+        }
+    }
+    evs
+}
+
+/// Feed the script to a fresh real engine; returns the reached state, or a description of how the
+/// reached state differs from the intended configuration (machinery problem, not a verdict).
+fn reach(w: &W, cfg: &[IC]) -> Result<EState, String> {
+    let healthy = vec![Some(TxMode::Healthy); w.n_ex];
+    let (mut engine, _txs) = mk_engine(&w.instruments, fresh_state(&w.instruments, TradingState::Disabled), &healthy, ScriptStrategy::default(), ScriptRisk::default());
+    for ev in script(w, cfg) {
+        let _ = engine.process(ev);
+    }
+    let es = engine.state;
+    for (i, (c, r)) in cfg.iter().zip(ref_of(cfg)).enumerate() {
+        let st = es.instruments.0.get_index(i).unwrap().1;
+        if st.orders.0.len() != r.orders.len() {
+            return Err(format!("instrument {i}: {} tracked orders, intended {}", st.orders.0.len(), r.orders.len()));
+        }
+        for (k, name) in KINDS.iter().enumerate() {
+            if c.orders & (1 << k) == 0 {
+                continue;
+            }
+            let cid = format!("{i}{name}");
+            let got = st.orders.0.get(&ClientOrderId::new(cid.as_str())).map(|o| &o.state);
+            let ok = match (k, got) {
+                (0, Some(ActiveOrderState::OpenInFlight(_))) => true,
+                (1, Some(ActiveOrderState::Open(o))) => o.filled_quantity.is_zero() && o.id.0.as_str() == format!("x-{cid}"),
+                (2, Some(ActiveOrderState::Open(o))) => o.filled_quantity == Decimal::ONE,
+                (3, Some(ActiveOrderState::CancelInFlight(c))) => c.order.is_some(),
+                (4, Some(ActiveOrderState::CancelInFlight(c))) => c.order.is_none(),
+                _ => false,
+            };
+            if !ok {
+                return Err(format!("instrument {i}: order {cid} is {got:?}"));
+            }
+        }
+        let pos = st.position.current.as_ref().map(|p| (p.side == Side::Buy, p.quantity_abs));
+        let want = r.pos.map(|(l, q)| (l, Decimal::from(q)));
+        if pos != want {
+            return Err(format!("instrument {i}: position {pos:?}, intended {want:?}"));
+        }
+        if st.data.price().is_some() != c.price {
+            return Err(format!("instrument {i}: price {:?}, intended known={}", st.data.price(), c.price));
+        }
+    }
+    Ok(es)
+}
+
+/// Execute one command on the real engine (fresh healthy links around the given state); evaluate the
+/// oracle against `refm` and advance `refm`. Returns the new engine state and a hash of the deliveries.
+fn eval(w: &W, es: &EState, refm: &mut [RefIns], f: &FSpec, cmd: Cmd, out: &mut Vec<Viol>) -> Option<(EState, u64)> {
+    let all = FSpec::None;
+    let f = if cmd == Cmd::CancelAll { &all } else { f };
+    let fk = f.kind();
+    let healthy = vec![Some(TxMode::Healthy); w.n_ex];
+    let (mut engine, txs) = mk_engine(&w.instruments, es.clone(), &healthy, ScriptStrategy::default(), ScriptRisk::default());
+    let command = match cmd {
+        Cmd::Close => Command::ClosePositions(w.filter(f)),
+        _ => Command::CancelOrders(w.filter(f)),
+    };
+    let cname = if cmd == Cmd::Close { "close-positions" } else { "cancel-orders" };
+    if catch_unwind(AssertUnwindSafe(|| engine.process(EngineEvent::Command(command)))).is_err() {
+        out.push((format!("C19/{cname}/{fk}/panic"), format!("Engine::process panicked on {cmd:?} {f:?}")));
+        return None;
+    }
+    let post = engine.state;
+    // deliveries: (link, request)
+    let mut delivered: Vec<(usize, ExecutionRequest)> = Vec::new();
+    for (l, t) in txs.iter().enumerate() {
+        if let Some(t) = t {
+            for r in t.take() {
+                delivered.push((l, r));
+            }
+        }
+    }
+    let sig = |what: &str| format!("C19/{cname}/{what}");
+    let sigf = |what: &str| format!("C19/{cname}/{fk}/{what}"); // scope rules name the filter kind
+    let h = hash_of(&format!("{delivered:?}"));
+    // scope defects (request outside the filter / matching instrument skipped) are one family: one signature
+    let mut scope: Vec<String> = Vec::new();
+    let mut outside = vec![false; w.n_ins];
+
+    if cmd == Cmd::Close {
+        let mut seen = vec![0usize; w.n_ins];
+        for (l, r) in &delivered {
+            let ExecutionRequest::Open(o) = r else {
+                out.push((sig("unexpected-non-open-request"), format!("{f:?}: delivered {r:?}")));
+                continue;
+            };
+            let i = o.key.instrument.index();
+            if i >= w.n_ins {
+                out.push((sig("order-for-unknown-instrument"), format!("{f:?}: {r:?}")));
+                continue;
+            }
+            seen[i] += 1;
+            let ri = &refm[i];
+            if !w.matches(f, i) {
+                scope.push(format!("instrument {i} is outside the filter but got {r:?}"));
+                outside[i] = true;
+            } else if ri.pos.is_none() {
+                out.push((sig("order-without-position"), format!("{f:?}: instrument {i} holds no position but got {r:?}")));
+            } else if !ri.price {
+                out.push((sig("order-without-price"), format!("{f:?}: instrument {i} has no market price but got {r:?}")));
+            } else {
+                let (long, q) = ri.pos.unwrap();
+                let want_side = if long { Side::Sell } else { Side::Buy };
+                if o.state.side != want_side {
+                    out.push((sig("not-opposite-side"), format!("{f:?}: instrument {i} is {} but the closing order is {:?}", if long { "long" } else { "short" }, o.state.side)));
+                }
+                if o.state.quantity != Decimal::from(q) {
+                    out.push((sig("wrong-quantity"), format!("{f:?}: instrument {i} holds {q} but the closing order has quantity {}", o.state.quantity)));
+                }
+                if *l != w.ex_of[i] || o.key.exchange.index() != w.ex_of[i] {
+                    out.push((sig("wrong-exchange"), format!("{f:?}: instrument {i} trades on exchange {} but the order names exchange {} and reached link {l}", w.ex_of[i], o.key.exchange.index())));
+                }
+                if seen[i] > 1 {
+                    out.push((sig("more-than-one-order"), format!("{f:?}: instrument {i} got {} closing orders", seen[i])));
+                }
+            }
+            // reference: the closing order is now in flight (a later cancel command must cancel it)
+            refm[i].orders.insert(o.key.cid.0.to_string(), RS::InFlight);
+        }
+        for i in 0..w.n_ins {
+            if w.matches(f, i) && refm[i].pos.is_some() && refm[i].price && seen[i] == 0 {
+                scope.push(format!("instrument {i} matches, holds {:?} and has a price, but no closing order was delivered", refm[i].pos));
+            }
+        }
+    } else {
+        let mut seen: BTreeMap<(usize, String), usize> = BTreeMap::new();
+        for (l, r) in &delivered {
+            let ExecutionRequest::Cancel(c) = r else {
+                out.push((sig("unexpected-non-cancel-request"), format!("{f:?}: delivered {r:?}")));
+                continue;
+            };
+            let i = c.key.instrument.index();
+            let cid = c.key.cid.0.to_string();
+            if i >= w.n_ins {
+                out.push((sig("cancel-for-unknown-instrument"), format!("{f:?}: {r:?}")));
+                continue;
+            }
+            let n = seen.entry((i, cid.clone())).or_insert(0);
+            *n += 1;
+            if !w.matches(f, i) {
+                scope.push(format!("instrument {i} is outside the filter but got {r:?}"));
+                outside[i] = true;
+                continue;
+            }
+            match refm[i].orders.get(&cid) {
+                None => out.push((sig("cancel-of-untracked-order"), format!("{f:?}: {r:?} names no tracked order"))),
+                Some(RS::Cancelling) => out.push((sig("re-requested-while-cancel-in-flight"), format!("{f:?}: order {cid} on instrument {i} is already being cancelled but got {r:?}"))),
+                Some(st) => {
+                    let want_id = match st {
+                        RS::Open(id) => Some(id.clone()),
+                        _ => None,
+                    };
+                    let got_id = c.state.id.as_ref().map(|x| x.0.to_string());
+                    if got_id != want_id {
+                        let what = match (&want_id, &got_id) {
+                            (Some(_), None) => "exchange-order-id-known-but-missing",
+                            (None, Some(_)) => "exchange-order-id-invented",
+                            _ => "wrong-exchange-order-id",
+                        };
+                        out.push((sig(what), format!("{f:?}: order {cid} on instrument {i}: exchange id known as {want_id:?}, request carries {got_id:?}")));
+                    }
+                    if *l != w.ex_of[i] || c.key.exchange.index() != w.ex_of[i] {
+                        out.push((sig("wrong-exchange"), format!("{f:?}: order {cid} lives on exchange {} but the cancel names exchange {} and reached link {l}", w.ex_of[i], c.key.exchange.index())));
+                    }
+                    if *n > 1 {
+                        out.push((sig("duplicate-cancel"), format!("{f:?}: order {cid} on instrument {i} got {n} cancel requests")));
+                    }
+                }
+            }
+        }
+        for i in 0..w.n_ins {
+            if !w.matches(f, i) {
+                continue;
+            }
+            // a matching instrument none of whose live orders got a cancel was skipped as a whole (scope defect);
+            // otherwise a missing cancel is a per-order defect
+            let live: Vec<&String> = refm[i].orders.iter().filter(|(_, st)| **st != RS::Cancelling).map(|(c, _)| c).collect();
+            let skipped = !live.is_empty() && live.iter().all(|c| !seen.contains_key(&(i, (*c).clone())));
+            if skipped {
+                scope.push(format!("instrument {i} matches and tracks live orders {live:?} but none got a cancel request"));
+            }
+            for (cid, st) in refm[i].orders.iter_mut() {
+                if *st == RS::Cancelling {
+                    continue;
+                }
+                if !skipped && !seen.contains_key(&(i, cid.clone())) {
+                    let what = if *st == RS::InFlight { "missing-cancel-of-in-flight-order" } else { "missing-cancel-of-open-order" };
+                    out.push((sig(what), format!("{f:?}: order {cid} on matching instrument {i} ({st:?}) got no cancel request")));
+                }
+                // requested now (or should have been): from here on it counts as being cancelled
+                *st = RS::Cancelling;
+            }
+        }
+    }
+    // instruments outside the filter: untouched, bit for bit
+    if let Some(first) = scope.first() {
+        out.push((sigf("wrong-scope"), format!("{f:?}: {first} ({} scope deviation(s) in this command)", scope.len())));
+    }
+    for i in 0..w.n_ins {
+        if !w.matches(f, i) && !outside[i] {
+            let (a, b) = (es.instruments.0.get_index(i).unwrap().1, post.instruments.0.get_index(i).unwrap().1);
+            if a != b {
+                let what = if a.orders != b.orders { "orders" } else if a.position != b.position { "position" } else { "other-state" };
+                out.push((sigf(&format!("outside-filter-{what}-touched")), format!("{f:?}: instrument {i} is outside the filter but its {what} changed")));
+            }
+        }
+    }
+    Some((post, h))
+}
+
+// ------------------------------------------------------------------------------------------------
+// sweep
+// ------------------------------------------------------------------------------------------------
+
+const SECOND: [Cmd; 3] = [Cmd::Cancel, Cmd::Close, Cmd::CancelAll];
+
+fn case_json(cfg: &[IC], f: &FSpec, seq: &[Cmd]) -> Value {
+    json!({"engine": "config-sweep", "cfg": cfg, "filter": f, "seq": seq})
+}
+
+/// all command sequences for one configuration; returns number of command evaluations
+fn sweep_config(ctx: &Ctx, w: &W, filters: &[FSpec], cfg: &[IC], distinct: &mut std::collections::HashSet<u64>, samples: &Samples) -> u64 {
+    let es0 = match reach(w, cfg) {
+        Ok(es) => es,
+        Err(e) => {
+            eprintln!("MACHINERY: C19 could not reach configuration {cfg:?}: {e}");
+            std::process::exit(2);
+        }
+    };
+    let ref0 = ref_of(cfg);
+    let mut n = 0u64;
+    for f in filters {
+        for first in [Cmd::Cancel, Cmd::Close] {
+            let mut r1 = ref0.clone();
+            let mut out = Vec::new();
+            let res = eval(w, &es0, &mut r1, f, first, &mut out);
+            n += 1;
+            let first_clean = out.is_empty();
+            for (sig, detail) in out.drain(..) {
+                ctx.violate(sig, detail, case_json(cfg, f, &[first]));
+            }
+            let Some((es1, h1)) = res else { continue };
+            // after a flagged command reference and engine may disagree: its follow-ups would only cascade
+            if !first_clean {
+                continue;
+            }
+            distinct.insert(h1);
+            for second in SECOND {
+                let mut r2 = r1.clone();
+                let res2 = eval(w, &es1, &mut r2, f, second, &mut out);
+                n += 1;
+                for (sig, detail) in out.drain(..) {
+                    ctx.violate(sig, detail, case_json(cfg, f, &[first, second]));
+                }
+                if let Some((_, h2)) = res2 {
+                    distinct.insert(h1 ^ h2.rotate_left(17));
+                }
+            }
+            samples.offer(|| case_json(cfg, f, &[first, Cmd::Cancel]));
+        }
+    }
+    n
+}
+
+fn ic(orders: u8, pos: u8, price: bool) -> IC {
+    IC { orders, pos, price }
+}
+
+/// representative per-instrument menu (quick) / wider menu (thorough)
+fn menu(thorough: bool) -> Vec<IC> {
+    let mut m = vec![
+        ic(0b00000, 0, false), // empty
+        ic(0b00011, 1, true),  // in-flight + open, long, price
+        ic(0b01100, 2, true),  // partially filled + cancelling(Some), short, price
+        ic(0b10000, 1, false), // cancelling(None), long, NO price
+        ic(0b00010, 0, true),  // open, no position, price
+        ic(0b11111, 2, true),  // everything, short, price
+    ];
+    if thorough {
+        m.extend([
+            ic(0b00001, 2, false), // in-flight, short, no price
+            ic(0b00100, 0, false), // partially filled only
+            ic(0b01000, 1, true),  // cancelling(Some) only, long, price
+            ic(0b11000, 0, true),  // both cancelling kinds, price, no position
+            ic(0b00111, 1, true),  // all live kinds, long
+            ic(0b00000, 2, true),  // no orders, short, price
+        ]);
+    }
+    m
+}
+
+fn all_ics() -> Vec<IC> {
+    let mut v = Vec::new();
+    for orders in 0u8..32 {
+        for pos in 0u8..3 {
+            for price in [false, true] {
+                v.push(ic(orders, pos, price));
+            }
+        }
+    }
+    v
+}
+
+fn configs(ctx: &Ctx) -> Vec<Vec<IC>> {
+    let thorough = ctx.tier == crate::core::Tier::Thorough;
+    let m = menu(thorough);
+    let mut v: Vec<Vec<IC>> = Vec::new();
+    // full product of the menu over the 4 instruments
+    for a in &m {
+        for b in &m {
+            for c in &m {
+                for d in &m {
+                    v.push(vec![*a, *b, *c, *d]);
+                }
+            }
+        }
+    }
+    // every one of the 192 per-instrument states on each instrument, the others from a small background
+    let bg = if thorough { vec![ic(0, 0, false), ic(0b00011, 1, true), ic(0b11111, 2, true)] } else { vec![ic(0b00011, 1, true)] };
+    for pos in 0..4 {
+        for x in all_ics() {
+            let others = 3;
+            let mut idx = vec![0usize; others];
+            loop {
+                let mut cfg = Vec::with_capacity(4);
+                let mut k = 0;
+                for p in 0..4 {
+                    if p == pos {
+                        cfg.push(x);
+                    } else {
+                        cfg.push(bg[idx[k]]);
+                        k += 1;
+                    }
+                }
+                v.push(cfg);
+                // odometer
+                let mut d = 0;
+                loop {
+                    if d == others {
+                        break;
+                    }
+                    idx[d] += 1;
+                    if idx[d] < bg.len() {
+                        break;
+                    }
+                    idx[d] = 0;
+                    d += 1;
+                }
+                if d == others {
+                    break;
+                }
+            }
+        }
+    }
+    v.sort_by_key(|c| c.iter().map(|i| (i.orders, i.pos, i.price)).collect::<Vec<_>>());
+    v.dedup();
+    v
+}
+
+pub fn run(ctx: &Ctx) -> Outcome {
+    let w = W::new();
+    let filters = w.filters();
+    let cfgs = configs(ctx);
+    let evaluations = AtomicU64::new(0);
+    let distinct = Distinct::default();
+    let samples = Samples::new(4);
+    cfgs.par_iter().for_each(|cfg| {
+        let mut local = std::collections::HashSet::new();
+        let n = sweep_config(ctx, &w, &filters, cfg, &mut local, &samples);
+        evaluations.fetch_add(n, Ordering::Relaxed);
+        distinct.merge_local(&local);
+    });
+    let dn = distinct.len();
+    if dn < 2 {
+        eprintln!("MACHINERY: C19 sweep produced {dn} distinct outcomes");
+        std::process::exit(2);
+    }
+    Outcome {
+        level: "exploration",
+        coverage: json!({
+            "evaluations": evaluations.load(Ordering::Relaxed),
+            "configurations": cfgs.len(),
+            "filters": filters.len(),
+            "command_sequences_per_configuration_and_filter": 8,
+            "distinct_nontrivial": dn,
+            "exhaustive": true,
+            "rule": "for every reached engine state x filter: CancelOrders / ClosePositions, then CancelOrders / ClosePositions / CancelOrders(None) again; deliveries in the link logs == requests the reference model derives from the configuration and the definition-level filter predicate; instruments outside the filter bit-identical",
+            "bounds": {"instruments": 4, "exchanges": 2, "underlyings": 3, "per_instrument_states_total": 192,
+                       "menu_size": menu(ctx.tier == crate::core::Tier::Thorough).len()},
+            "samples": samples.take(),
+        }),
+        assumptions: vec![
+            "engine states are those reachable by SendOpenRequests / order snapshots / SendCancelRequests / trades / market trades on healthy links with trading disabled".into(),
+            "4 instruments on 2 exchanges; full product of a per-instrument menu plus all 192 per-instrument states on each instrument against a background".into(),
+            "the close-positions strategy is close_open_positions_with_market_orders with a deterministic client order id per instrument".into(),
+            "only side, quantity, instrument and exchange of a closing order are demanded (the statement does not fix kind / price / time in force)".into(),
+        ],
+    }
+}
+
+pub fn replay(ctx: &Ctx, case: &Value) {
+    let w = W::new();
+    let cfg: Vec<IC> = serde_json::from_value(case["cfg"].clone()).expect("replay: cfg");
+    let f: FSpec = serde_json::from_value(case["filter"].clone()).expect("replay: filter");
+    let seq: Vec<Cmd> = serde_json::from_value(case["seq"].clone()).expect("replay: seq");
+    let mut es = match reach(&w, &cfg) {
+        Ok(es) => es,
+        Err(e) => {
+            eprintln!("MACHINERY: cannot reach configuration: {e}");
+            std::process::exit(2);
+        }
+    };
+    let mut refm = ref_of(&cfg);
+    for (k, cmd) in seq.iter().enumerate() {
+        let mut out = Vec::new();
+        let res = eval(&w, &es, &mut refm, &f, *cmd, &mut out);
+        println!("replay step {k}: {cmd:?} {f:?} -> {} violation(s)", out.len());
+        for (sig, detail) in out {
+            println!("    {sig}: {detail}");
+            ctx.violate(sig, detail, case.clone());
+        }
+        match res {
+            Some((e, _)) if ctx.violations.len() == 0 => es = e,
+            _ => break,
+        }
+    }
 }
